@@ -380,3 +380,42 @@ func Verif_C18_interface_results() {
 		verifrt.Assert(results[1] != nil && results[1] == results[2] && later1 == results[1] && later2 == results[1], "a non-nil result is shared by every caller")
 	}
 }
+
+// Verif_C18_reference_chains: object 1 is a reference to object 2, object 2
+// holds the value.  Two (thorough: three) goroutines decode through either
+// reference; under every interleaving all decodes that went through the same
+// reference hold the identical Go value, also afterwards.
+func Verif_C18_reference_chains() {
+	r1, r2 := NewReference(1, 0), NewReference(2, 0)
+	g := &verifSchedGetter{objs: map[Reference]Native{r1: r2, r2: Dict{"K": Integer(1)}}}
+	g.meta.Version = V1_7
+	x := NewExtractor(g)
+	dec := func(c Cursor, obj Object, isDirect bool) (*verifNode, error) {
+		return &verifNode{}, nil
+	}
+	G := 2 + verifrt.Tier()
+	results := make([]*verifNode, G+1)
+	via := make([]Reference, G+1)
+	for i := 1; i <= G; i++ {
+		via[i] = []Reference{r1, r2}[verifrt.Choice("via", 2)]
+	}
+	verifrt.StartSched()
+	for i := 1; i <= G; i++ {
+		gid := i
+		verifrt.Go(func() {
+			results[gid], _ = Decode(CursorAt(x, nil), via[gid], dec)
+		})
+	}
+	verifrt.WaitAll()
+	verifrt.Cover("all goroutines finished")
+	for i := 1; i <= G; i++ {
+		verifrt.Assert(results[i] != nil, "every call returns a value")
+		for j := i + 1; j <= G; j++ {
+			if via[i] == via[j] {
+				verifrt.Assert(results[i] == results[j], "all decodes of one reference yield the identical Go value")
+			}
+		}
+		again, _ := Decode(CursorAt(x, nil), via[i], dec)
+		verifrt.Assert(again == results[i], "a later decode returns the value the concurrent caller was given")
+	}
+}
